@@ -44,6 +44,17 @@ Theorem C13_parse_accepts_iff_rfc :
     ((exists v, JTextG F fparse true s v /\ depth v <= MAX_DEPTH) /\ no_lone_surrogate_escape s = true).
 Proof. exact parse_accepts_iff_rfc. Qed.
 
+(* --- and with the number oracle removed from the right-hand side: F := unit / fp_unit = fun _ => Some tt makes JTextG the PURE
+       RFC 8259 syntax (a number is any literal of the number grammar). Hypothesis: f64::from_str accepts every literal of
+       the RFC number grammar (checked by the exhaustive number stream of the correspondence). --- *)
+Theorem C13_parse_accepts_iff_pure_syntax :
+  forall (F : Type) (fparse : str -> option F),
+    (forall l, JNumber l -> exists x, fparse l = Some x) ->
+    forall s : str,
+      (exists v, parse fparse s = Ok v) <->
+      ((exists u, JTextG unit fp_unit true s u /\ depth u <= MAX_DEPTH) /\ no_lone_surrogate_escape s = true).
+Proof. exact parse_accepts_iff_pure_syntax. Qed.
+
 (* the sub-language JText is exactly: full syntax + no unpaired surrogate escape (same nesting depth) *)
 Theorem C13_text_iff_syntax_without_lone_surrogates :
   forall (F : Type) (fparse : str -> option F) (s : str),
@@ -233,6 +244,7 @@ Print Assumptions C13_parse_sound.
 Print Assumptions C13_parse_complete.
 Print Assumptions C13_parse_accepts_iff.
 Print Assumptions C13_parse_accepts_iff_rfc.
+Print Assumptions C13_parse_accepts_iff_pure_syntax.
 Print Assumptions C13_text_iff_syntax_without_lone_surrogates.
 Print Assumptions C13_parse_max_depth_sound.
 Print Assumptions C13_parse_max_depth_complete.
